@@ -330,9 +330,13 @@ ExecStart(c, via) == IF CellDelays(c) /\ via = "exec" THEN {c} ELSE {}
 \* cross-context conflicts are generated only for declarations with ONE service (what happens to the other
 \* decorators of a refused function is not specified and differs between the subsystems)
 \* a declaration that spells a name differently from a declaration of that name which holds registrations now
-SpellingCollision(d) == \E h \in Gen : HoldsTables(G[h].s) /\ G[h].d.svc \cap d.svc # {} /\ G[h].d.alt # d.alt
-SpellingCollisionIn(defs) == \/ \E i \in 1..Len(defs) : SpellingCollision(defs[i].d)
-                             \/ \E i, j \in 1..Len(defs) : defs[i].d.svc \cap defs[j].d.svc # {} /\ defs[i].d.alt # defs[j].d.alt
+\* (exc: contexts whose generations end before the new declaration is evaluated - the context being reloaded)
+SpellingCollisionX(d, exc) == \E h \in Gen : /\ HoldsTables(G[h].s) /\ G[h].c \notin exc
+                                              /\ G[h].d.svc \cap d.svc # {} /\ G[h].d.alt # d.alt
+SpellingCollision(d) == SpellingCollisionX(d, {})
+SpellingCollisionIn(defs, exc) ==
+  \/ \E i \in 1..Len(defs) : SpellingCollisionX(defs[i].d, exc)
+  \/ \E i, j \in 1..Len(defs) : defs[i].d.svc \cap defs[j].d.svc # {} /\ defs[i].d.alt # defs[j].d.alt
 OwnedElsewhere(c, s) == own[s] \notin {NoOwner, c, c \o "!run"}
 ConflictOK(c, d) == (\E s \in d.svc : OwnedElsewhere(c, s)) => Cardinality(d.svc) = 1
 ExecOK(c) == started /\ c \in loaded
